@@ -99,6 +99,11 @@ impl Oracle for C02 {
             }
             return None;
         }
+        let (len, empty) = (r.g.len(), r.g.is_empty());
+        if len != s.keys_after.len() || empty != s.keys_after.is_empty() {
+            return fail("C02", "len_disagrees_with_keys", s, format!(
+                "after {}: len() = {len}, is_empty() = {empty}, keys() = {:?}", s.call.render(), s.keys_after));
+        }
         if s.desync && !matches!(s.exp, Exp::Broken(_)) {
             let alive = r.m.alive();
             let extra: Vec<usize> = s.keys_after.iter().copied().filter(|k| !alive.contains(k)).collect();
@@ -254,6 +259,14 @@ impl Oracle for C04 {
                 let vp = r.g.v_print(v).unwrap_or_default();
                 if vp.contains('Δ') {
                     return fail("C04", "add.stale_data", s, format!("add({v}) on an absent id produced a vertex with data: {vp}"));
+                }
+                // no label of the previous vertex under this id answers any more
+                for (l, t) in &r.m.grave[v] {
+                    let k = r.g.kid(v, l.direct());
+                    if k.is_some() {
+                        return fail("C04", "add.stale_kid", s, format!(
+                            "add({v}) on an absent id: kid({v},{l:?}) = {k:?} (the collected vertex had that edge to {t})"));
+                    }
                 }
                 if let Some((b, a)) = ob {
                     // nothing else changed
